@@ -24,8 +24,11 @@ PROP = {
             "(a op b, a+b*c, shoup(a*b,b'), (a-b)+shoup(c*b,b'), compute_shoup, nested) with every aliasing pattern of the destination "
             "with the leaves, plus random trees predicted to compile for the limb/backend (depth <= 4 quick, <= 6 thorough), poly and poly_p "
             "leaves and destinations, by assignment / add-sub-mul helpers / construction of poly and poly_p / copy-on-write detach; "
-            "3-4 operand fills each (random boundary-biased residues, all p-1, 0/1); 3 limbs x {plain, serial, sse, avx2}; each line carries the "
-            "tree, the store before, the mode the compiler resolved and the store after; distinct = distinct lines; class = form:backend:mode:depth:aliasing",
+            "3-4 operand fills each (random boundary-biased residues, all p-1, 0/1); 3 limbs x {plain, serial, sse, avx2}; the full case list at degree 16 "
+            "(thorough: 32 too), and one aliasing pattern of every statement form + random trees at each degree of gen_expr.degree_plan (quick: E, 3E, 64+E, "
+            "96, 128-E, 200 for register width E, i.e. small, non-power-of-two, just above 64, just below 128, above 128; thorough: ~20 degrees up to 1024 "
+            "incl. degrees only narrower-mode roots accept); every line compares every coefficient of every handle; each line carries the "
+            "tree, the store before, the mode the compiler resolved and the store after; distinct = distinct lines; class = form:backend:mode:depth:aliasing:degree class",
     "trusted_base": props.COMMON_TB + [
         "C++ overload resolution / template matching is observed per generated TU, not modelled: the tree a line reports is the one tools/gen_expr.py wrote; "
         "that it is the tree the compiler built is tied by the reported root simd_mode and by the results",
